@@ -7,6 +7,7 @@ pub mod pywheel;
 pub mod alloc;
 pub mod trees;
 pub mod classic;
+pub mod serde2026;
 pub mod backref;
 pub mod run;
 pub mod progs;
@@ -26,6 +27,9 @@ pub fn run_request(kind: &str, args: &[&str]) -> String {
         "SER" if args[0] == "br" => backref::run_ser(args),
         "DE" if ["br", "brold", "len"].contains(&args[0]) => backref::run_de(args),
         "PATH" => backref::run_path(args),
+        "SER" if args[0].starts_with("2026:") => serde2026::run_ser(args),
+        "DE" if ["2026", "len2026"].contains(&args[0]) => serde2026::run_de(args),
+        "INTERN" => serde2026::run_intern(args),
         "LEN" => classic::run_len(args),
         "PFX" => classic::run_pfx(args),
         "RUN" => run::run_run(args),
@@ -48,6 +52,7 @@ pub fn gen_stream(name: &str, seed: u64, n: usize, tier: &str) -> Vec<String> {
         "hash" | "thash" | "thash_stream" => treehash::generate(name, &mut rng, n, tier),
         "alloc" | "alloc_limits" | "alloc_small" | "alloc_ints" => alloc::generate(name, &mut rng, n, tier),
         "classic" => classic::generate(&mut rng, n, tier),
+        "serde2026" | "intern" => serde2026::generate(name, &mut rng, n, tier),
         s if s.starts_with("backref_") => backref::generate(s, &mut rng, n, tier),
         "run" => progs::generate_run(&mut rng, n, tier, &["chia"], "any"),
         "run_default" => progs::generate_run(&mut rng, n, tier, &["chia"], "default"),
@@ -66,8 +71,10 @@ pub fn run_oracle(name: &str, seed: u64, n: usize, tier: &str) -> util::OracleRe
         "thash_agree" | "hash_vectors" => treehash::oracle(name, &mut rng, n, tier),
         "alloc_accounting" | "alloc_limits" | "alloc_nodes" => alloc::oracle(name, &mut rng, n, tier),
         "classic" => classic::oracle(&mut rng, n, tier),
+        "serde2026_roundtrip" | "serde2026_blobs" | "intern" => serde2026::oracle(name, &mut rng, n, tier),
         s if s.starts_with("backref_") => backref::oracle(s, &mut rng, n, tier),
         "classic_big" => classic::oracle_big(&mut rng, n, tier),
+        "classic_decoders" => classic::oracle_decoders(&mut rng, n, tier),
         "interp_guards" => interp_oracles::oracle_guards(&mut rng, n, tier),
         "interp_sha256tree" => interp_oracles::oracle_sha256tree(&mut rng, n, tier),
         s if s.starts_with("interp_") => interp_oracles::oracle(&s[7..], &mut rng, n, tier),
